@@ -231,7 +231,7 @@ def run_c07(ctx, replay=None):
         v = json.load(open(replay))
         seq_progs, conc_progs, rt_progs = [], [], []
         p = v["schedule"]
-        (conc_progs if p.get("threads") else seq_progs).append(p)
+        (rt_progs if v.get("mode") == "rt" else conc_progs if p.get("threads") else seq_progs).append(p)
         scheds = []
     else:
         # 1. exhaustive: all interleavings at lock-scope granularity
@@ -246,8 +246,9 @@ def run_c07(ctx, replay=None):
             mc_states += r.distinct
             mc_gen += r.generated
             mc_desc.append("%s: %d distinct" % (desc, r.distinct))
-        # the situation the report discusses (two Query() calls sharing a Lamport time) is explored by the model
-        r = vlib.tlc(ctx, "MC_QueryReply", c07_mc_cfg(2, 1, 1, 1, [1], [1, 2], [1], inv="NoSameLT"), timeout=3000)
+        # the situation the report discusses is explored by the model: two Query() calls share a Lamport time, the second
+        # registration replaces the first, a reply addressed to the first (still open) query is discarded
+        r = vlib.tlc(ctx, "MC_QueryReply", c07_mc_cfg(2, 1, 1, 1, [1], [1, 2], [1], inv="NoDiscard"), timeout=3000)
         if not r.violated:
             raise vlib.Inconclusive("two queries with the same Lamport time are not reachable in the model")
         # 2. TLC-generated sequential schedules
@@ -287,6 +288,10 @@ def run_c07(ctx, replay=None):
     if rep.diverged:
         ctx.log("divergences: %s" % rep.diverged[:8])
     pid = c07_pids(allp)
+    info = {}
+    for body in vlib.printed(rep.tlc.out, "INFO"):
+        for t in re.findall(r'"([^"]*)"', vlib.split_top(body)[1]):
+            info[t] = info.get(t, 0) + 1
     for (tid, line, clauses, tags) in rep.monitors:
         tag, binary, progs, extra = runs[tid // 1000000]
         key = tag + "|" + ",".join(sorted(clauses)) + "|" + ",".join(sorted(tags))
@@ -313,7 +318,7 @@ def run_c07(ctx, replay=None):
         "traces_validated_against_impl": cov_tr, "trace_lines": cov_lines, "divergences": cov_div,
         "evaluations": cov_sched, "distinct_nontrivial": cov_tr,
         "sequential_schedules": len(seq_progs), "concurrent_programs": len(conc_progs), "realtime_schedules": len(rt_progs),
-        "driver": summaries, "ops_by_kind": kinds,
+        "driver": summaries, "ops_by_kind": kinds, "traces_by_situation": info,
         "rule": "TLC -simulate sequences of whole operations (Query() calls with RequestAck, reply deliveries through NotifyMsg in wire "
                 "format with matching / other times and ids, duplicates, deadline, timer body, application reads) executed on a real quiet "
                 "node in the virtual-time build; the same sequences split into threads (plus hand-written race programs) run under every "
